@@ -171,7 +171,7 @@ structure RF (c : FileCfg) (dir : CDir) (kv : KV) : Prop where
 def okF (kv : KV) (op : CacheOp) : Prop := op.hasData = true ∧ op.typeStable kv = true
 
 theorem file_sim (c : FileCfg) (ok : CodecOK c) (hinj : ∀ a b, c.h a = c.h b → a = b) :
-    Sim (fileCOps c) (kvOpsC kvCfgKeep) (RF c) okF := by
+    CSim (fileCOps c) (kvOpsC kvCfgKeep) (RF c) okF := by
   intro dir kv op R ⟨hdata, hstable⟩
   have hne : ∀ {a b : Str}, a ≠ b → (c.h a == c.h b) = false := fun h => by simpa using fun e => h (hinj _ _ e)
   cases op with
